@@ -45,6 +45,14 @@ def gen_quad(rng):
     z0 = float(rng.choice([0.0, 1.0, 1.001, -1.0, 3.0, 0.1, 50.0, 1e-3, 1.0 + 1e-7]))
     rtol = float(rng.choice([1e-3, 1e-6, 1e-9]))
     t0 = float(rng.choice([0.0, 0.0, 1.0, -3.5, 100.0]))
+    if rng.random() < 0.3:
+        # large algebraic values with a small absolute inconsistency: the consistency threshold is absolute (1e-6), it does
+        # not scale with the size of the variables
+        a = float(rng.choice([0.0, 0.0, 1e-6]))
+        b = 1.0
+        z0 = float(rng.choice([1e3, 1e5, -1e4, 2.5e6]))
+        r = float(rng.choice([3e-6, 5e-5, 2e-3, 5e-7, 0.4]))
+        d = r - (a * z0 * z0 + b * z0 + c * x0)
     return a, b, c, d, x0, z0, rtol, t0
 
 
